@@ -104,7 +104,8 @@ def query_to_coq(c):
     logs = clist(["(mkL %s %s %s %s)" % (cbool(l["failed"]), cbool(l["same_as_sent"]), cbool(l["is_request"]),
                                          cbool(l["after_write"])) for l in o["logs"]])
     writes = clist(["(mkW %d %s %d %s)" % (w["rcode"], cbool(w["aa"]), w["nans"], cbool(w["ok"])) for w in o["writes"]])
-    ob = "(mkObs %s %s %s %s %d)" % (ckv(o["deltas"]), logs, writes, cbool(o["located"]), o["ret"])
+    ob = "(mkObs %s %s %s %s %s %d)" % (ckv(o["deltas"]), logs, writes, cbool(o["located"]),
+                                        cbool(o.get("via_ecs", False)), o["ret"])
     return "CQuery %s %s" % (q, ob)
 
 
@@ -138,6 +139,34 @@ def case_class(c):
     if skipped(c):
         return c["kind"] + ":ambiguous-skipped"
     return c["kind"] + ":" + c.get("class", "?")
+
+
+# Finding found by this slice.  The entry belongs in /verif/known_findings.json (coordinator's
+# file); until it is there the same text is used from here so that it is printed, not hidden.
+PROPOSED_FINDING = {
+    "property": "C19", "id": "F-C19-location-ecs(proposed)", "status": "open", "key": "c19-location-ecs-mask",
+    "what": "handler.go:211 decides the location-class counter by loc.Mask > 0; resolver-map matches carry a mask too "
+            "(96 + prefix length for IPv4 clients, the prefix length for IPv6), so a query WITHOUT client-subnet option whose "
+            "resolver matches any subnet (even 0.0.0.0/0) bumps DNS_location.ecs; DNS_location.default / fallback_default / "
+            "resolver only ever move for IPv6 clients matching ::/0",
+    "classifier": "query that reaches the location counters, whose location was not produced by db.EcsLocation, with loc.Mask > 0",
+    "witness": "foo.example.com. A from 9.9.9.9 without EDNS, data '%\\000\\001,0.0.0.0/0,c\\000' + 'Mfoo.example.com,c\\000': "
+               "loc = {Mask 96, LocID 0,1}; counters: DNS_location.ecs +1, DNS_location.default +0",
+}
+
+
+def known_finding(c, findings):
+    if c.get("kind") != "query" or skipped(c):
+        return None
+    k, o = c["cls"], c["obs"]
+    if not (o.get("located") and k["loc"] == "ok" and k["mask"] > 0 and not o.get("via_ecs")):
+        return None
+    # the finding explains only the location counter: with the code's own choice of counter
+    # substituted, everything else must still hold (checked by model_ok on the same case)
+    for f in findings:
+        if f.get("key") == PROPOSED_FINDING["key"] or "DNS_location.ecs" in f.get("what", ""):
+            return f
+    return PROPOSED_FINDING
 
 
 def shrink_candidates(c):
